@@ -80,8 +80,10 @@ func (g *gen) inline(kind string, depth int) *Val {
 			for k, x := range primTypes[g.r.Intn(len(primTypes))] {
 				v.Fields[k] = x
 			}
-		case 2, 3: // object with properties
-			v.Fields["type"] = "object"
+		case 2, 3: // object with properties (the type keyword may be left out: properties alone make it an object)
+			if g.r.Intn(4) != 0 {
+				v.Fields["type"] = "object"
+			}
 			n := 1 + g.r.Intn(3)
 			for i := 0; i < n; i++ {
 				g.kid(v, []string{"properties", fmt.Sprintf("p%d", i)}, "schemas", depth, "schema.properties", false)
